@@ -14,7 +14,7 @@ from concurrent.futures import ThreadPoolExecutor
 
 VERIF = os.path.dirname(os.path.dirname(os.path.abspath(__file__)))
 REPO = os.environ.get('VERIF_REPO', '/repo')
-WORK = os.path.join(VERIF, 'work')
+WORK = os.environ.get('VERIF_WORK') or os.path.join(VERIF, 'work')  # VERIF_WORK: a separate scratch directory for ad-hoc runs beside a full run
 sys.path.insert(0, os.path.join(VERIF, 'tools'))
 sys.path.insert(0, VERIF)
 
